@@ -37,6 +37,8 @@ pub struct Profile {
     pub huge_pct: u64,
     /// never put a lot price and a cost on the same posting (keeps 'the price this posting records' unambiguous)
     pub exclusive_price: bool,
+    /// probability (1/100) that a generated price is negative (only where no conversion report depends on it)
+    pub negative_price_pct: u64,
 }
 
 pub const P_BALANCE: Profile = Profile {
@@ -51,6 +53,7 @@ pub const P_BALANCE: Profile = Profile {
     declare_precision_pct: 70,
     huge_pct: 6,
     exclusive_price: false,
+    negative_price_pct: 6,
 };
 
 pub const P_ASSERT: Profile = Profile {
@@ -65,6 +68,7 @@ pub const P_ASSERT: Profile = Profile {
     declare_precision_pct: 40,
     huge_pct: 3,
     exclusive_price: false,
+    negative_price_pct: 0,
 };
 
 pub const P_INFER: Profile = Profile {
@@ -79,6 +83,7 @@ pub const P_INFER: Profile = Profile {
     declare_precision_pct: 40,
     huge_pct: 3,
     exclusive_price: false,
+    negative_price_pct: 8,
 };
 
 /// Report-oriented: only accepted transactions matter, many dates.
@@ -94,6 +99,7 @@ pub const P_REPORT: Profile = Profile {
     declare_precision_pct: 50,
     huge_pct: 2,
     exclusive_price: false,
+    negative_price_pct: 0,
 };
 
 /// Conversion reports: many prices from costs and lots, never both on one posting, no huge values.
@@ -109,6 +115,7 @@ pub const P_CONVERT: Profile = Profile {
     declare_precision_pct: 50,
     huge_pct: 0,
     exclusive_price: true,
+    negative_price_pct: 0,
 };
 
 const VALUES: &[(i128, u32)] = &[
@@ -194,6 +201,7 @@ impl<'r> BookGen<'r> {
         if c == own {
             c = COMMODITIES[(COMMODITIES.iter().position(|x| *x == own).unwrap() + 1) % COMMODITIES.len()].to_string();
         }
+        let m = if self.rng.chance(self.profile.negative_price_pct, 100) { -m } else { m };
         Amt {
             num: Dec::new(m, s),
             commodity: c,
